@@ -3,7 +3,7 @@
    quantifies over all worlds [w] (any plan list: raw byte strings of any content and length,
    edited acknowledges, any number of pending acknowledges, libusb error codes on send / receive,
    any memory) and all handle states [c].  Model: model/Control.v. *)
-From Cam Require Import Outcome Bytes Chunks Cmd Ack CmdLayout GenCPLayout Control P_C09 P_C08 P_C06 P_C07.
+From Cam Require Import Outcome Bytes Chunks Cmd Ack CmdLayout GenCPLayout Control P_C09 P_C08 P_C06 P_C07 ManifestSpec P_C14b P_C07b.
 
 (* decoding is total on arbitrary input *)
 Theorem C07_decode_total : forall bs, parse_ack bs <> Panic.
@@ -51,6 +51,37 @@ Theorem C07_write_total : forall c w a data, 0 <= a ->
   exists x s', ctl_write a data (c, w) = (x, s') /\ x <> Panic.
 Proof. exact ctl_write_total. Qed.
 Print Assumptions C07_write_total.
+
+(* recovery: whatever the device did during a read or a write (ANY world w, any outcome x), the handle keeps
+   its configuration, and once the device behaves again (conforming plans from there on, well-formed memory)
+   the next read of mapped memory returns exactly that memory *)
+Theorem C07_handle_intact_after_read : forall a n c w x c' w', 0 <= c_next c < 2 ^ 16 ->
+  ctl_read a n (c, w) = (x, (c', w')) -> ctl_cfg c c'.
+Proof. exact ctl_read_cfg. Qed.
+Print Assumptions C07_handle_intact_after_read.
+
+Theorem C07_handle_intact_after_write : forall a data c w x c' w', 0 <= c_next c < 2 ^ 16 ->
+  ctl_write a data (c, w) = (x, (c', w')) -> ctl_cfg c c'.
+Proof. exact ctl_write_cfg. Qed.
+Print Assumptions C07_handle_intact_after_write.
+
+Theorem C07_recovers_after_read : forall a n c w x c' w' a2 n2 d,
+  c_opened c = true -> 12 < c_max_ack c < 2 ^ 32 -> 24 <= c_max_cmd c -> 1 <= c_retry c -> 0 <= c_next c < 2 ^ 16 ->
+  c_abrm c <> None ->
+  ctl_read a n (c, w) = (x, (c', w')) ->
+  conf (c_retry c) w' -> segs_sep (w_segs w') -> mem_read (w_segs w') a2 n2 = Some d ->
+  exists s'', ctl_read a2 n2 (c', w') = (Ok d, s'').
+Proof. exact recovers_after_read. Qed.
+Print Assumptions C07_recovers_after_read.
+
+Theorem C07_recovers_after_write : forall a data c w x c' w' a2 n2 d,
+  c_opened c = true -> 12 < c_max_ack c < 2 ^ 32 -> 24 <= c_max_cmd c -> 1 <= c_retry c -> 0 <= c_next c < 2 ^ 16 ->
+  c_abrm c <> None ->
+  ctl_write a data (c, w) = (x, (c', w')) ->
+  conf (c_retry c) w' -> segs_sep (w_segs w') -> mem_read (w_segs w') a2 n2 = Some d ->
+  exists s'', ctl_read a2 n2 (c', w') = (Ok d, s'').
+Proof. exact recovers_after_write. Qed.
+Print Assumptions C07_recovers_after_write.
 
 (* an acknowledge of another kind is refused (the pinned code accepted it) *)
 Theorem C07_kind_checked : forall a c w w1 bytes ek,
